@@ -25,6 +25,7 @@ CASE_TIMEOUT = 900
 
 def bounds(tier):
     return {"positions": "every 2nd lattice point quick / all thorough (lattice = quarter of the finest cell)",
+            "schedules": "every order of <= %d tasks of one deviating per-level pool call, lazy and eager, at the position meeting most boxes" % (4 if tier == "thorough" else 3),
             "field_lists": ["A C G", "G", "all", "G A (not header order)"], "limit": "None, 0..finest", "split_template_boxes": [1, 2, 3, 4, 5, 6, 7]}
 
 
@@ -32,7 +33,7 @@ def cases(tier, seed):
     out = []
     for c in c07.cases(tier, seed):
         out.append({"desc": c["desc"], "normal": c["normal"], "dyadic": c["dyadic"], "kind": "mesh",
-                    "stride": 1 if tier == "thorough" else 2, "w": c["w"]})
+                    "stride": 1 if tier == "thorough" else 2, "w": c["w"], "sched_tasks": 4 if tier == "thorough" else 3})
     for nb in range(1, 8):
         d = {"ndims": 3, "domain": [80 * nb, 80, 2], "levels": [[[[80 * i, 0, 0], [80 * i + 79, 79, 1]] for i in range(nb)]],
              "fields": ["f%d" % i for i in range(8)], "payload": ["const2"] * 8, "seed": seed, "dx0": [0.25, 0.25, 0.25]}
@@ -200,6 +201,29 @@ def run_case(case, workdir):
                 rec.fail("cli_differs_from_api", {"argv": argv}, "the mandoline command wrote another tree than Mandoline(...).slice()")
             shutil.rmtree(o1, ignore_errors=True)
             shutil.rmtree(o2, ignore_errors=True)
+    # schedules: at the position where the plane meets most boxes, every completion order of the parallel per-level
+    # pool calls (one deviating call) must still write a plotfile whose boxes hold their own plane data
+    if case["kind"] == "mesh":
+        from .. import explorer
+        m_s = max(positions, key=lambda mm: (sum(len(meets(ref, lv, n, mm, sm)) for lv in range(nlev)), -mm))
+        o = os.path.join(workdir, "sched")
+        stats = {}
+
+        def run(plan):
+            shutil.rmtree(o, ignore_errors=True)
+            with vpool.controlled(plan) as ctl:
+                with poisoned(MODS, 0):
+                    r = call(lambda: Mandoline(path, fields=["G", "A"], serial=False, verbose=0).slice(
+                        normal=n, pos=sm.pos_of(m_s), outfile=o, fformat="plotfile"))
+            return ctl, r
+        for plan, ctl, (st, val) in explorer.explore(run, bound=1, max_tasks=case.get("sched_tasks", 3), stats=stats):
+            sub = {"normal": n, "m": m_s, "pos": sm.pos_of(m_s), "fields": ["G", "A"], "schedule": explorer.plan_json(plan)}
+            rec.exe([dh, "sched", sorted(explorer.plan_json(plan).items())], trans=len(ctl.calls))
+            if st == "exc":
+                rec.fail("raised", sub, exc_text(val))
+                continue
+            check_output(rec, sub, o, ref, sm, m_s, nlev - 1, ["G", "A"], n)
+        shutil.rmtree(o, ignore_errors=True)
     # histories on ONE Mandoline object: several plotfile-format slices, each compared with a fresh object's output
     if case["kind"] == "mesh":
         from ..refmodel import tree_digest
